@@ -58,6 +58,15 @@ def build_state(params, B, concrete=None):
             cls = params['first']
             if cls == 'slash': cons.append(b0 == 0x2f)
             elif cls == 'other': cons.append(b0 != 0x2f)
+        if params.get('second') is not None and len(target.flat().bs) > 1:
+            b1 = target.flat().bs[1]; c2 = params['second']
+            alnum = z3.Or(z3.And(z3.UGE(b1, 48), z3.ULE(b1, 57)), z3.And(z3.UGE(b1, 65), z3.ULE(b1, 90)), z3.And(z3.UGE(b1, 97), z3.ULE(b1, 122)))
+            special = z3.Or(b1 == 0x2e, b1 == 0x2f, b1 == 0x3f, b1 == 0x23)
+            if c2 == 'dot': cons.append(b1 == 0x2e)
+            elif c2 == 'slash': cons.append(b1 == 0x2f)
+            elif c2 == 'qh': cons.append(z3.Or(b1 == 0x3f, b1 == 0x23))
+            elif c2 == 'alnum': cons.append(alnum)
+            elif c2 == 'other': cons.append(z3.And(z3.Not(alnum), z3.Not(special)))
     sy['target'] = target
     hs = []
     r = params.get('range', 'none')
